@@ -39,6 +39,12 @@ type InitBlock struct {
 }
 
 // Trace is one run.
+// View: see Trace.Views.
+type View struct {
+	Of int `json:"of"`
+	W  int `json:"w"`
+}
+
 type Trace struct {
 	Obj      string       `json:"obj"`                 // sparse | bytes | overlay | regs
 	BaseKind string       `json:"base_kind,omitempty"` // overlay: bytes | sparse
@@ -48,7 +54,11 @@ type Trace struct {
 	Shared   bool         `json:"shared,omitempty"`    // the initial blocks are windows into one buffer (in trace order)
 	BaseOps  []Op         `json:"base_ops,omitempty"`  // overlay-over-sparse: stores applied to the base first
 	Vals     []*refeval.J `json:"vals"`
-	Ops      []Op         `json:"ops"`
+	// Views: further values, numbered behind Vals: the constant Vals[Of]
+	// narrowed to W bytes the way callers narrow (Const.WithWidth: the same
+	// bytes, seen through a shorter slice)
+	Views []View `json:"views,omitempty"`
+	Ops   []Op   `json:"ops"`
 	VSeed    uint64       `json:"vseed"`
 }
 
